@@ -28,6 +28,19 @@ SKIP_DIRS = {".git", "notebook", "scripts", "tests", "docs", ".github"}
 def load_corpus() -> List[dict]:
     with open(os.path.join(VERIF, "selftest", "corpus.json")) as fh:
         edits = json.load(fh)["edits"]
+    # seeded changes (written by sub-agents) and refactoring twins are patch files; every directory found is an entry
+    import glob
+
+    for d in sorted(glob.glob(os.path.join(VERIF, "seeded", "*", "meta.json"))):
+        m = json.load(open(d))
+        sid = os.path.basename(os.path.dirname(d))
+        edits.append({"id": sid, "kind": "mutant", "property": m.get("breaks_property") or m.get("property"), "suite": "survives",
+                      "patch": os.path.join(os.path.dirname(d), "patch.diff"), "note": "seeded: " + m.get("summary", "")[:80]})
+    for d in sorted(glob.glob(os.path.join(VERIF, "selftest", "twins", "*", "meta.json"))):
+        m = json.load(open(d))
+        sid = os.path.basename(os.path.dirname(d))
+        edits.append({"id": sid, "kind": "twin", "property": m.get("property", "C01"), "suite": "survives",
+                      "patch": os.path.join(os.path.dirname(d), "patch.diff"), "note": "refactoring: " + m.get("summary", "")[:80]})
     vp = os.path.join(VERIF, "selftest", "suite_verdicts.json")
     if os.path.exists(vp):
         with open(vp) as fh:
@@ -75,11 +88,16 @@ def apply_edit(root: str, e: dict) -> Optional[str]:
 def judge(entry: dict, pids: List[str], repo: str) -> dict:
     d = scratch_copy(repo)
     try:
-        edits = entry.get("edits") or [entry]
-        for e in edits:
-            err = apply_edit(d, e)
-            if err:
-                return {"id": entry["id"], "error": err, "results": {}}
+        if entry.get("patch"):
+            pr = subprocess.run(["git", "apply", entry["patch"]], cwd=d, stdout=subprocess.PIPE, stderr=subprocess.STDOUT, text=True)
+            if pr.returncode != 0:
+                return {"id": entry["id"], "error": "patch does not apply: " + pr.stdout[-200:], "results": {}}
+        else:
+            edits = entry.get("edits") or [entry]
+            for e in edits:
+                err = apply_edit(d, e)
+                if err:
+                    return {"id": entry["id"], "error": err, "results": {}}
         env = dict(os.environ, VERIF_REPO=d, VERIF_EVIDENCE_DIR=os.path.join(d, ".evidence"), VERIF_NO_SELFTEST="1")
         res = {}
         for pid in pids:
